@@ -20,7 +20,7 @@ FORMATS = ["cirq", "sympy", "ionq", "projectq", "qdk"]
 
 INPLACE = {"add", "trim", "reindex", "rsr", "rrg", "merge", "simplify"}
 PASS_FUNCS = {"f_rsr", "f_rrg", "f_merge", "f_simplify"}
-OUT_OF_PLACE_C09 = PASS_FUNCS | {"inverse", "copy", "plus", "mul", "split", "stack"}
+OUT_OF_PLACE_C09 = PASS_FUNCS | {"inverse", "copy", "plus", "mul", "split", "stack", "trim_trivial"}
 READONLY_C11 = {"translate", "simulate", "depth", "iter", "eq", "serialize", "inverse", "copy", "plus", "mul", "split", "stack"}
 
 
@@ -179,7 +179,29 @@ class CircuitWorld(World):
                 else:
                     out.append(["MEASURE", [rng.randrange(n)], None, "", False])
             else:
-                out.append(C.gen_gate_j(rng, n, allow=cfg["gate_kinds"], sym_p=0.25 if cfg["symbolic"] else 0.0))
+                g = C.gen_gate_j(rng, n, allow=cfg["gate_kinds"], sym_p=0.25 if cfg["symbolic"] else 0.0)
+                out.append(g)
+                # adjacent rotations with the same name and target whose control lists differ (subset / reordered /
+                # other control): candidates for a wrong merge or cancellation
+                if g[0] in C.CTRL_PARAM and isinstance(g[3], (int, float)) and n >= 3 and rng.random() < 0.3:
+                    others = [q for q in range(n) if q not in g[1] and q not in (g[2] or [])]
+                    ctl = list(g[2])
+                    r = rng.random()
+                    if r < 0.4 and others:
+                        ctl2 = ctl + [rng.choice(others)]
+                    elif r < 0.6 and len(ctl) > 1:
+                        ctl2 = ctl[:-1]
+                    elif r < 0.8 and len(ctl) > 1:
+                        ctl2 = list(reversed(ctl))
+                    elif others:
+                        ctl2 = [rng.choice(others)] + ctl[1:]
+                    else:
+                        ctl2 = ctl
+                    h = [g[0], list(g[1]), ctl2, C.gen_angle(rng), False]
+                    if rng.random() < 0.5:
+                        out.append(h)
+                    else:
+                        out.insert(len(out) - 1, h)
         return out
 
     def _gen_new(self, rng):
@@ -189,7 +211,8 @@ class CircuitWorld(World):
         pattern = rng.random()
         gates = self._gen_gates(rng, n, rng.randint(0, 7))
         if pattern < 0.2 and n >= 2:     # gaps / unordered indices: spread the qubits
-            spread = sorted(rng.sample(range(cfg["max_width"] + 3), n))
+            # indices >= 8 matter: a set of small ints iterates in sorted order only while all elements are below its table size
+            spread = sorted(rng.sample(range(cfg["max_width"] + (9 if rng.random() < 0.5 else 3)), n))
             rng.shuffle(spread)
             gates = [[g[0], [spread[q] for q in g[1]], ([spread[q] for q in g[2]] if g[2] is not None else None), g[3], g[4]]
                      for g in gates]
@@ -259,13 +282,13 @@ class CircuitWorld(World):
             n = max(1, e.meta["width"] + (1 if not (isinstance(e.limit, int) and e.limit) and rng.random() < 0.3 else 0))
             return {"k": "add", "c": i, "gate": self._gen_gates(rng, n, 1)[0]}
         if gname == "struct":
-            k = rng.choice(["plus", "mul", "copy", "inverse", "trim", "reindex", "split", "stack", "stack"])
+            k = rng.choice(["plus", "mul", "copy", "inverse", "trim", "reindex", "split", "stack", "stack", "trim_trivial"])
             j = rng.randrange(len(self.pool))
             if k == "plus":
                 return {"k": "plus", "a": i, "b": j}
             if k == "mul":
                 return {"k": "mul", "c": i, "n": rng.randint(1, 3), "r": rng.random() < 0.4}
-            if k in ("copy", "inverse", "trim"):
+            if k in ("copy", "inverse", "trim", "trim_trivial"):
                 return {"k": k, "c": i}
             if k == "reindex":
                 idx = e.indices()
@@ -411,6 +434,8 @@ class CircuitWorld(World):
             expect = "ok"
         elif k == "split":
             expect = "ok"
+        elif k == "trim_trivial":
+            expect = "ok" if numeric else "either"
 
         # --- the call -------------------------------------------------------------------------------------------------
         try:
@@ -461,6 +486,15 @@ class CircuitWorld(World):
                 parts = e.c.split(trim_qubits=bool(op["trim"]))
                 for p in parts:
                     results.append((p, None, False, "split"))
+            elif k == "trim_trivial":
+                # out-of-place helper of toolboxes/operators/trim_trivial_qubits.py (anchored by C09): its *output* belongs to
+                # C14 and is not judged here; the input circuit and every later operation on it must be unaffected
+                from tangelo.toolboxes.operators.trim_trivial_qubits import trim_trivial_circuit
+                r, states = trim_trivial_circuit(e.c)
+                info["trimmed"] = sorted(states)
+                if states:
+                    ctx.probe("C09.trim_trivial_removed_qubits")
+                results.append((r, "unknown", False, "trim_trivial"))
             elif k == "stack":
                 cs = [x.c for x in ents]
                 r = cs[0].stack(*cs[1:]) if op.get("method") else TC.stack(*cs)
